@@ -643,9 +643,9 @@ Section Rows.
     destruct (roundtrip_state f mv acc now h Hmv Hacc) as (c & Ec & S).
     destruct (export_rows_source f h) as [Hfst Hrows]. fold a in Hfst, Hrows.
     pose proof (inv_logs_sorted _ (proj2 (run_inv f h))) as Hs.
-    exists {| i_s := c; i_tab := i_tab a; i_l := Initializing |}.
+    exists {| i_s := c; i_tab := i_tab a; i_l := Initializing; i_c := Initializing |}.
     split; [|split; [exact S | split; reflexivity]].
-    unfold imp_import, i_init. cbn [i_l i_s i_tab]. unfold last_log_id. cbn [s_logs init_state fold_left].
+    unfold imp_import, i_init. cbn [i_l i_s i_tab i_c]. unfold last_log_id. cbn [s_logs init_state fold_left].
     assert (A1 : StronglySorted Z.lt (map (fun r : log * bytes => l_id (fst r)) (imp_export_rows a))).
     { rewrite <- Hfst in Hs. rewrite map_map in Hs. exact Hs. }
     assert (A2 : forall x, @None Z = Some x -> Forall (fun r : log * bytes => x < l_id (fst r)) (imp_export_rows a)) by (intros x D; discriminate D).
